@@ -214,7 +214,7 @@ func integerDivide(x, y any) (any, error) {
 		}
 	}
 
-	r, _ := xd.QuoRem(yd)
+	r, rem := xd.QuoRem(yd)
 
 	if r.IsInf(0) {
 		return nil, ErrInfinity
@@ -222,6 +222,12 @@ func integerDivide(x, y any) (any, error) {
 
 	if r.IsNaN() {
 		return nil, ErrNotANumber
+	}
+
+	// QuoRem truncates towards zero; round towards negative infinity like
+	// the floating point implementation above.
+	if !rem.IsZero() && !rem.IsNaN() && rem.Signbit() != yd.Signbit() {
+		r = r.Sub(decimal128.New(1, 0))
 	}
 
 	return r, nil
